@@ -19,6 +19,7 @@ from __future__ import annotations
 import copy
 import json
 import os
+import re
 import time as _realtime
 from concurrent.futures import ThreadPoolExecutor
 from typing import Any, Dict, List, Optional, Tuple
@@ -255,9 +256,9 @@ class Exec:
 
 
 def execute(stimuli: List[dict], unsafe: bool, mode: str, loop: Optional[steploop.StepLoop], rng: Any,
-            scratch: str, src: str, spelling: bool = False) -> dict:
+            scratch: str, src: str, spelling: bool = False, battery: Optional[List[dict]] = None) -> dict:
     """Run a history; Receive values are renumbered 1,2,3... in order (fresh integers)."""
-    x = Exec(unsafe, mode, loop, rng, scratch, spelling=spelling)
+    x = Exec(unsafe, mode, loop, rng, scratch, battery=battery, spelling=spelling)
     val = 0
     try:
         for st in stimuli:
@@ -496,7 +497,7 @@ def _plain(v: Any) -> Any:
 def run(ctx: Ctx) -> None:
     ctx.rule = ("executions = TLC-simulated behaviours of CookieStoreMC (full lattice) replayed into a real CookieJar / "
                 "ClientSession + seeded random histories; after every action all 60 filter_cookies() answers "
-                "(6 hosts x 5 paths x 2 schemes) are judged by TLC against the RFC 6265 reference; distinct = "
+                "(6 hosts x 5 paths x 2 schemes; http/https, for a tenth of the random histories ws/wss) are judged by TLC against the RFC 6265 reference; distinct = "
                 "different stimulus sequences of >= 3 events")
     ctx.assumptions = [
         "reference constants = documented aiohttp behaviour: unsafe=False drops cookies from/to IP hosts; no "
@@ -516,8 +517,8 @@ def run(ctx: Ctx) -> None:
         models = [("small3", dict(steps=3, expiries="ExpiriesNone"))]
     else:
         models = [("small3", dict(steps=3)),
-                  ("small4", dict(steps=4, kinds="KindsTiny", expiries="ExpiriesSmall")),
-                  ("mid3", dict(steps=3, hosts="HostsMid", paths="PathsMid", kinds="KindsMid"))]
+                  ("small4", dict(steps=4, kinds="KindsTiny", expiries="ExpiriesNone")),
+                  ("mid3", dict(steps=3, hosts="HostsMid3", paths="PathsMid", kinds="KindsMid", expiries="ExpiriesNone"))]
     if os.environ.get("VERIF_C16_TRACES_ONLY"):     # sensitivity experiments: the spec did not change
         models = []
         ctx.notes.append("VERIF_C16_TRACES_ONLY set: bounded model runs skipped")
@@ -546,8 +547,11 @@ def run(ctx: Ctx) -> None:
         cfg = write_cfg(cfname, spec="SpecSim", hosts="HostsFull", paths="PathsFull", names='{"n", "m"}',
                         kinds="KindsFull", expiries="ExpiriesFull", steps=ctx.pick(8, 10), cf=cf, view=False,
                         selfjudge=False)
-        num = ctx.pick(150, 2500) if not unsafe else ctx.pick(50, 800)
+        num = ctx.pick(120, 1000) if not unsafe else ctx.pick(40, 300)
         behs, res = simulate_behaviours("CookieStoreMC", cfg, num=num, depth=ctx.pick(9, 11), seed=ctx.seed, timeout=600)
+        m = re.search(r"number of states generated: (\d+)", res.output)
+        if m:                                   # -simulate reports its state count in another format
+            res.generated = res.distinct = int(m.group(1))
         ctx.add_model(f"CookieStoreMC(simulate full lattice, unsafe={unsafe})", res, exhaustive=False)
         hs = behaviours_to_histories(behs)
         for k, h in enumerate(hs):
@@ -556,17 +560,20 @@ def run(ctx: Ctx) -> None:
         ctx.log(f"replayed {len(hs)} simulated behaviours (unsafe={unsafe})")
     J.judge(traces, "tlc-sim")
     # ---- 3. code -> spec: seeded random histories (spelling variants of the header grammar)
-    n = ctx.pick(1000, 20000)
+    n = ctx.pick(800, 6000)
     batch: List[dict] = []
     for k in range(n):
         h = G.random_history(ctx.rng, queries=(k % 5 == 0))
         mode = "session" if k % 5 == 0 else "jar"
-        batch.append(execute(h["stimuli"], h["unsafe"], mode, loop, ctx.rng, scratch, "random", spelling=True))
+        bat = G.battery(schemes=["ws", "wss"]) if k % 10 == 3 else None     # Secure applies to wss, not to ws
+        batch.append(execute(h["stimuli"], h["unsafe"], mode, loop, ctx.rng, scratch, "random", spelling=True,
+                             battery=bat))
         if len(batch) >= 2400:
             J.judge(batch, "random")
             batch = []
     J.judge(batch, "random")
     J.finish()
+    ctx.extra["failures_by_signature"] = {sig: n for (_c, sig), n in sorted(J.count.items())}
     ctx.evaluations = sum(ctx.action_cover.values()) * len(G.battery())
     ctx.extra["filter_cookies_answers_judged"] = ctx.evaluations
     loop.uninstall()
@@ -632,7 +639,8 @@ def replay(ctx: Ctx, path: str) -> int:
     t = payload["detail"]["trace"]
     loop = steploop.new_loop()
     scratch = mktemp("c16jar")
-    tr = execute(stimuli_of(t), t["cfg"]["unsafe"], t["cfg"].get("mode", "jar"), loop, ctx.rng, scratch, "replay")
+    tr = execute(stimuli_of(t), t["cfg"]["unsafe"], t["cfg"].get("mode", "jar"), loop, ctx.rng, scratch, "replay",
+                 battery=t["cfg"]["battery"])
     vs, _ = _validate_parallel([tr])
     v = vs[0]
     for ln in history_text(tr, len(tr["events"]) - 1):
